@@ -86,10 +86,17 @@ func envInt(name string, def int) int {
 func expandJobs(r HarnessRun, tier string) []job {
 	b := r.Quick
 	if tier == "thorough" {
-		if r.Thorough != nil {
+		switch {
+		case r.Quick["quick_skip"] == 1 && r.Thorough != nil:
+			b = r.Thorough // a run that exists in the thorough tier only
+		case heavyHarness(r.Name):
+			b = deepenHeavy(r.Quick)
+		case r.Thorough != nil:
 			b = r.Thorough
-		} else if _, ok := r.Quick["segs"]; ok {
-			b = deepen(r.Quick)
+		default:
+			if _, ok := r.Quick["segs"]; ok {
+				b = deepen(r.Quick)
+			}
 		}
 	}
 	jobs := []job{{Harness: r.Name, Bounds: map[string]int{}}}
